@@ -169,7 +169,8 @@ func randIP(r *rand.Rand, v6 bool) net.IP {
 	return b
 }
 
-func randRecord(r *rand.Rand, v6 bool) (entities.Record, recAbs) {
+// poor: a record of a template with fewer mapped elements (no names, no service port): those fields are then absent
+func randRecord(r *rand.Rand, v6 bool, poor bool) (entities.Record, recAbs) {
 	a := recAbs{Nums: map[string]int{}, Strs: map[string][]int{}}
 	var elems []entities.InfoElementWithValue
 	num := func(v int) int {
@@ -198,8 +199,12 @@ func randRecord(r *rand.Rand, v6 bool) (entities.Record, recAbs) {
 	a.Strs[sn], a.Strs[dn], a.Strs[cn] = sb(src.String()), sb(dst.String()), sb(cip.String())
 	sp, dp, pr, svc := r.Intn(65536), r.Intn(65536), r.Intn(256), r.Intn(65536)
 	elems = append(elems, entities.NewUnsigned16InfoElement(ie("sourceTransportPort", 0), uint16(sp)), entities.NewUnsigned16InfoElement(ie("destinationTransportPort", 0), uint16(dp)),
-		entities.NewUnsigned8InfoElement(ie("protocolIdentifier", 0), uint8(pr)), entities.NewUnsigned16InfoElement(ie("destinationServicePort", registry.AntreaEnterpriseID), uint16(svc)))
-	a.Nums["sourceTransportPort"], a.Nums["destinationTransportPort"], a.Nums["protocolIdentifier"], a.Nums["destinationServicePort"] = sp, dp, pr, svc
+		entities.NewUnsigned8InfoElement(ie("protocolIdentifier", 0), uint8(pr)))
+	a.Nums["sourceTransportPort"], a.Nums["destinationTransportPort"], a.Nums["protocolIdentifier"] = sp, dp, pr
+	if !poor {
+		elems = append(elems, entities.NewUnsigned16InfoElement(ie("destinationServicePort", registry.AntreaEnterpriseID), uint16(svc)))
+		a.Nums["destinationServicePort"] = svc
+	}
 	for _, n := range u64Names {
 		v := num(0)
 		elems = append(elems, entities.NewUnsigned64InfoElement(ie(n, 0), uint64(v)))
@@ -212,6 +217,9 @@ func randRecord(r *rand.Rand, v6 bool) (entities.Record, recAbs) {
 	}
 	huge := r.Intn(30) == 0 // a payload beyond 65535 bytes: several long strings in one record
 	for i, n := range strNames {
+		if poor {
+			break
+		}
 		v := ""
 		if r.Intn(4) != 0 {
 			v = fmt.Sprintf("%s-%d", n[:3], r.Intn(1000))
@@ -325,8 +333,9 @@ func main() {
 					n = 20 + r.Intn(30)
 				}
 				recs := make([]any, 0, n)
+				poor := r.Intn(3) == 0 // the whole message comes from a poorer template
 				for k := 0; k < n; k++ {
-					rec, ra := randRecord(r, v6)
+					rec, ra := randRecord(r, v6, poor)
 					set.AddRecordV2(rec.GetOrderedElementList(), 256)
 					recs = append(recs, ra)
 				}
